@@ -222,8 +222,15 @@ pub fn rust_ty(t: &Ty) -> String {
         Ty::Res(x, e) => format!("Result<{}, {}>", rust_ty(x), rust_ty(e)),
         Ty::Arr(x) => format!("Vec<{}>", rust_ty(x)),
         Ty::Tup(xs) => format!("({},)", xs.iter().map(rust_ty).collect::<Vec<_>>().join(", ")),
-        Ty::Named(s) => s.to_string(),
+        Ty::Named(s) => rust_path(s),
     }
+}
+
+/// the Rust path of a generated #host type as seen from the crate root after `use generated::*;`
+/// (every module of the signature set is a `pub mod` of the generated code)
+pub fn rust_path(name: &str) -> String {
+    let m = module_of(name);
+    if m.is_empty() { name.to_string() } else { format!("{}::{}", m.replace('/', "::"), name) }
 }
 
 /// how sigs.abra imports each module (one of every import form of the language)
